@@ -17,14 +17,16 @@ EXPLANATION = (
     'exact length, the prefix comparison, a sign at the sign position, colons at both separator '
     'positions, three successful two-digit parses at the digit positions and a total of at most 24h. '
     'C15-bound: the 24h limit of FixedOffsetFromName and of FixedOffsetToName fold to the same constant '
-    'on both sides of zero. C15-abbr: a symbolic layout of the name through the erase() edits of '
-    'FixedOffsetToAbbr shows the abbreviation is sign+hh, then mm, then ss, dropping ss only when it is '
-    '"00" and mm only when both are "00". C15-buf: the forward writes into FixedOffsetToName\'s buffer '
+    'on both sides of zero. C15-abbr: abstract execution of FixedOffsetToAbbr over names made of tokens '
+    '(each digit either "the digit 0" or "another digit", sign + or -, literal prefix and colons; 128 '
+    'runs cover every name of the long form, one more the short form) shows the abbreviation is sign+hh, '
+    'then mm, then ss, dropping ss only when it is "00" and mm only when both are "00"; an edit the '
+    'interpreter has no exact transfer function for ends as "not interpreted". C15-buf: the forward writes into FixedOffsetToName\'s buffer '
     'sum to exactly its extent. Does not decide the digit arithmetic (offset<->name bijection).')
 LEVEL = ('Structural proof of the accept-shape, of the no-I/O routing and of the string-edit layout for all '
          'offsets and names; the value-level bijection over the 172801 offsets is not decided statically.')
 LEVEL_NOTE = 'Trusts clang 14 AST and sa/; std::equal / std::string::erase semantics assumed.'
-TECHNIQUE = 'per-path branch-fact analysis + call-graph effects + symbolic string-layout tracking + constant agreement'
+TECHNIQUE = 'per-path branch-fact analysis + call-graph effects + abstract execution over token-class strings + constant agreement'
 
 IO_CALLS = {'fopen', 'fread', 'fseek', 'fclose', 'getenv', 'open', 'read', 'ifstream', 'fopen_s', '_dupenv_s'}
 
